@@ -973,8 +973,8 @@ func TestVerifC26(t *testing.T) {
 				muts.Add(1)
 				var a0, a15 bool
 				for fi, f := range c26FlagOrder {
-					if fi == 2 && quickSkip && a0 == a15 {
-						break // quick tier: same verdict without and with all features, see the rule text
+					if fi == 2 && a0 == a15 {
+						break // both tiers: mutated strings get the mixed option sets only when the verdict depends on the features
 					}
 					res := c26Check(envs[f], in, true, true)
 					a0, a15 = a0 || (f == 0 && res.accepted), a15 || (f == 15 && res.accepted)
@@ -1015,12 +1015,12 @@ func TestVerifC26(t *testing.T) {
 	r.Set("rule", "one evaluation = one input text under one of the 16 parser option sets (experimental functions x duration expressions x extended range selectors x binop fill modifiers). "+
 		"Inputs: (1) the typed text generator of c26_gen_test.go (layers L0 leaves, L1 every node kind with its full parameter alphabet over core leaves and every leaf in every child position of a default template, "+
 		"LP all two-operator precedence/unary-minus trees, L2 every node kind over one L1 representative per node kind and precedence class, thorough: L3 over L2 representatives); "+
-		"(2) every string of 1..3 tokens over the 56-token structural alphabet (thorough: also every 4-token string over its first 40 tokens), joined with and without spaces; (3) every single-token deletion and duplication of every printed form (quick: forms of L0, L1, LP; thorough: all forms). Quick tier only: an input with the same verdict under no feature and under all features is not re-run under the 14 mixed option sets. "+
+		"(2) every string of 1..3 tokens over the 56-token structural alphabet (thorough: also every 4-token string over its first 40 tokens), joined with and without spaces; (3) every single-token deletion and duplication of every printed form (quick: forms of L0, L1, LP; thorough: all forms). Token mutations (both tiers) and, in the quick tier only, all other inputs with the same verdict under no feature and under all features are not re-run under the 14 mixed option sets. "+
 		"Every accepted input is printed, re-parsed, compared field by field (positions ignored) and re-printed, and prettified at each width and re-parsed; every rejected input must carry ParseErrors. "+
 		"distinct_nontrivial = distinct accepted ASTs (by full field dump) with at least two nodes; distinct_outcomes = root node types of accepted inputs and normalised first error messages of rejected ones.")
 	r.Assume("structural equality ignores position ranges, identifies nil with empty slices, compares the label matchers of one selector as a multiset and identifies all NaN payloads")
-	if quickSkip {
-		r.Assume("quick tier: optional features only ever turn a rejection into an acceptance, so an input accepted without any feature or rejected with all features behaves the same under the mixed option sets (the thorough tier does not assume this)")
+	{
+		r.Assume("quick tier, and token mutations in both tiers: optional features only ever turn a rejection into an acceptance, so an input accepted without any feature or rejected with all features behaves the same under the mixed option sets (the thorough tier does not assume this for generated inputs and token strings)")
 	}
 	r.Assume("inputs are produced by the harness' own renderer / token enumeration; ASTs that only hand construction (not the parser) can produce are outside the quantifier")
 
